@@ -27,6 +27,9 @@ def inputs(ctx, tier):
         ("single60", dict(kind="manysamples", samples=30, chroms=2, len=300, single=True), dict(k=9, seg=50, mm=15)),
         ("single120", dict(kind="manysamples", samples=40, chroms=3, len=200, single=True), dict(k=9, seg=50, mm=15)),
         ("multi_many", dict(kind="manysamples", samples=12, chroms=2, len=400, single=False), dict(k=9, seg=60, mm=15)),
+        # tandem-repeat blocks next to ordinary sequence: plain-stored and tuple-packed reference segments (different ZSTD levels) are
+        # compressed by the same worker threads within one round
+        ("multi_tandem", dict(kind="tandem", samples=3, chroms=2, len=2400, single=False), dict(k=11, seg=100, mm=15)),
     ]
     if not q:
         L += [
